@@ -37,6 +37,8 @@ CHECKS = {
         "jobs": [
             {"run": "^TestC02Provenance$", "n": {"quick": 8000, "thorough": 40000}},
             {"run": "^TestC02FaultEnum$", "n": {"quick": 1500, "thorough": 12000}},
+            # a builder may also panic (its caller recovers): Gets waiting for that build get an error or build themselves
+            {"run": "^TestC02PanickingBuilder$", "n": {"quick": 2000, "thorough": 20000}},
             # values torn or mixed up inside the backends' critical sections are out of the scheduler's reach:
             # the free-running twin (race detector + provenance of every result) covers them
             {"run": "^TestC01Stress$", "name": "C01Stress-for-C02", "race": True, "n": {"quick": 100, "thorough": 300}, "shards": {"quick": 1, "thorough": 8}},
